@@ -63,7 +63,7 @@ PROPS = {
                 'when the accept predicate transcribed from the property statement holds in the current abstract state, and each error variant is proved to name a conjunct that this call violated; payload validators '
                 '(ADTS, Opus, parameter-set extraction) are proved against their specifications.',
         'note': FLOAT + '; ' + A3 + '; ' + A5,
-        'kani': ['kb_is_keyframe_h264', 'kb_is_keyframe_h265'], 'assumptions': [FLOAT, A3, A5],
+        'kani': ['kb_is_keyframe_h264', 'kb_is_keyframe_h265', 'k_api_audio_gate'], 'assumptions': [FLOAT, A3, A5],
     },
     'C05': {
         'title': 'Rejected calls leave no trace',
@@ -103,7 +103,7 @@ PROPS = {
         'text': 'The writer contract proves that audio sample durations are the exact distances of the submitted timestamps, so audio sample j decodes at pts_j - pts_0; the trak builders emit [tkhd, mdia] only. '
                 'Synchronisation therefore reduces to one obligation that no guard establishes; it is kept as a named failing lemma (known finding) so that any other C09 regression is still reported.',
         'note': 'decidable only up to the recorded finding',
-        'kani': ['k_api_ticks_audio'], 'assumptions': [],
+        'kani': ['k_api_ticks_audio', 'k_api_audio_gate'], 'assumptions': [],
     },
     'C10': {
         'title': 'Fragmented muxing conserves samples across any write/flush interleaving',
@@ -111,14 +111,14 @@ PROPS = {
         'text': 'wf() is established by new and preserved by every method; write_video appends exactly the submitted sample or changes nothing; flush_segment returns exactly spec_media_segment(queue, seq, first DTS) and empties the queue; '
                 'the location lemma proves that each sample is found at data_offset + preceding sizes.',
         'note': A4 + '; A2 for the init segment; fragments of 4 GiB or more are a recorded finding',
-        'kani': ['kb_frag_accept', 'kb_frag_flush_ref'], 'assumptions': [A4, A2],
+        'kani': ['kb_frag_accept', 'kb_frag_flush_ref', 'kb_media_segment_one'], 'assumptions': [A4, A2],
     },
     'C11': {
         'title': 'Fragmented segments carry a consistent timeline and a stable init segment',
         'technique': 'Verus: trun/tfdt field contracts, tfdt == first DTS of the segment, cached init segment == spec of the immutable config',
         'text': 'build_trun/build_tfdt are proved field by field; flush_segment is proved to write the first queued DTS as base decode time, from which the cross-segment statements follow by lemma; init_segment is proved equal to a '
                 'specification of the configuration whether cached or not.',
-        'note': 'duration / composition-offset exactness beyond 32 bits are recorded findings', 'kani': ['kb_frag_flush_ref'], 'assumptions': [A4],
+        'note': 'duration / composition-offset exactness beyond 32 bits are recorded findings', 'kani': ['kb_frag_flush_ref', 'kb_media_segment_one'], 'assumptions': [A4],
     },
     'C12': {
         'title': 'No public entry point panics, overflows or hangs on any input',
